@@ -6,6 +6,7 @@
 """Provide helper methods that might be useful to verilog passes."""
 
 import os
+import re
 import shutil
 import textwrap
 from collections import deque
@@ -25,14 +26,14 @@ def make_indent( src, nindent ):
 
 def get_component_unique_name( c_rtype ):
   full_name = get_component_full_name( c_rtype )
-  special_chars = [' ', '<', '>', '.', '[', ']']
-
-  if len( full_name ) < 64 and not any([c in full_name for c in special_chars]):
+  # Only a legal (System)Verilog identifier can be used as it is; hash the
+  # parameter string if it contains any other character (e.g. -1, (1,), a+b)
+  if len( full_name ) < 64 and re.fullmatch( r'[A-Za-z_][A-Za-z0-9_$]*', full_name ):
     return full_name
 
   comp_name = c_rtype.get_name()
   param_hash = blake2b(digest_size = 8)
-  param_hash.update(full_name[len(comp_name):].encode('ascii'))
+  param_hash.update(full_name[len(comp_name):].encode('utf-8'))
   param_name = param_hash.hexdigest()
   return comp_name + "__" + param_name
 
